@@ -341,7 +341,7 @@ pub fn drive_spec<'p, Er: VEr>(inp: &mut IR<'p, u8, Er>, s0: &S0, start_pos: usi
 pub fn h_collect<M: VMode, Er: VEr, const B: usize>() {
     run::<u8, Er, (), _>(|inp, s0| {
         let p = anyit::<SymIn<u8>, X<Er>>(0, B).collect::<VArr>();
-        let r = p.go::<M>(inp);
+        let r = p.gov::<M>(inp);
         let s = snap(inp);
         let (v, n, items, ended_ok, pos, spec) = drive_spec::<Er>(inp, &s0, s0.pos, s0.nsec, 0, B, 0, SecSpec::pre(&s0));
         vassert!(v[2], "FW/driver-bound-sufficient");
@@ -376,7 +376,7 @@ pub fn h_collect<M: VMode, Er: VEr, const B: usize>() {
 pub fn h_count<M: VMode, Er: VEr, const B: usize>() {
     run::<u8, Er, (), _>(|inp, s0| {
         let p = anyit::<SymIn<u8>, X<Er>>(0, B).count();
-        let r = p.go::<M>(inp);
+        let r = p.gov::<M>(inp);
         let (v, n, _items, ended_ok, _pos, _spec) = drive_spec::<Er>(inp, &s0, s0.pos, s0.nsec, 0, B, 0, SecSpec::pre(&s0));
         vassert!(v[2], "FW/driver-bound-sufficient");
         vassert!(r.is_ok() == ended_ok, "C02/count.succeeds-iff-iteration-ends-normally");
@@ -391,7 +391,7 @@ pub fn h_foldl<M: VMode, Er: VEr, const B: usize>() {
     run::<u8, Er, (), _>(|inp, s0| {
         // slot 0 = initial value parser; iterator calls logged from slot 1
         let p = anyp::<SymIn<u8>, X<Er>>(0).foldl(anyit::<SymIn<u8>, X<Er>>(1, B), |acc: u16, b: u16| acc.wrapping_mul(31).wrapping_add(b));
-        let r = p.go::<M>(inp);
+        let r = p.gov::<M>(inp);
         let s = snap(inp);
         let a = lg(inp, 0);
         vassert!(a.called && a.calls == 1 && a.entry_pos == s0.pos && a.entry_sec == s0.nsec, "C02/foldl.initial-value-parsed-first-from-entry");
@@ -438,7 +438,7 @@ pub fn h_foldl_with<M: VMode, Er: VEr, const B: usize>() {
             acc.wrapping_mul(31).wrapping_add(b)
         });
         inp.state.reg[5] = s0.pos;
-        let r = p.go::<M>(inp);
+        let r = p.gov::<M>(inp);
         let s = snap(inp);
         let a = lg(inp, 0);
         if a.ok {
@@ -472,7 +472,7 @@ pub fn h_foldr<M: VMode, Er: VEr, const B: usize>() {
     run::<u8, Er, (), _>(|inp, s0| {
         // iterator calls logged from slot 0; final value parser in slot B
         let p = anyit::<SymIn<u8>, X<Er>>(0, B).foldr(anyp::<SymIn<u8>, X<Er>>(B), |a: u16, acc: u16| acc.wrapping_mul(31).wrapping_add(a));
-        let r = p.go::<M>(inp);
+        let r = p.gov::<M>(inp);
         let s = snap(inp);
         let (v, n, items, ended_ok, pos, spec) = drive_spec::<Er>(inp, &s0, s0.pos, s0.nsec, 0, B, 0, SecSpec::pre(&s0));
         let b = lg(inp, B);
@@ -525,7 +525,7 @@ pub fn h_repeated_go<M: VMode, Er: VEr, const B: usize, const FAST: bool>() {
         if capped {
             p = p.at_most(cap);
         }
-        let r = p.go::<M>(inp);
+        let r = p.gov::<M>(inp);
         let s = snap(inp);
         // reference: greedy iteration over the logged item attempts
         let mut pos = s0.pos;
@@ -598,7 +598,7 @@ pub fn h_sepby_go<M: VMode, Er: VEr, const R: usize>() {
         if trail {
             p = p.allow_trailing();
         }
-        let r = p.go::<M>(inp);
+        let r = p.gov::<M>(inp);
         let s = snap(inp);
         // reference run
         let mut pos = s0.pos;
